@@ -28,6 +28,21 @@ def check_core_family(prop, tier):
     cases = verif.printed_records(res["out"], "CASE")
     if not cases:
         raise ToolError("MC_Core printed no replay cases")
+    sim_cases = 0
+    if prop == "C03":
+        # random longer behaviours of the same specification (up to 4 successive edits): TLC simulation mode
+        sres = verif.run_tlc("MC_Core.tla", "MC_Core_sim.cfg", workers=4, timeout=3000,
+                             simulate="num=%d" % (100 if tier == "quick" else 1500), tag="MC_Core-sim")
+        if sres["violated"]:
+            raise ToolError("MC_Core simulation reported %s" % sres["violated"])
+        seen = set()
+        for c in verif.printed_records(sres["out"], "CASE"):
+            if len(c["edits"]) >= 2:
+                key = json.dumps([c["mint"], c["edits"]], sort_keys=True)
+                if key not in seen:
+                    seen.add(key)
+                    cases.append(c)
+                    sim_cases += 1
     cases_path = os.path.join(verif.WORK, "core_cases_%s_%s.ndjson" % (prop, tier))
     verif.write_ndjson(cases_path, cases)
     out = os.path.join(verif.WORK, "replay_%s_%s.json" % (prop, tier))
@@ -74,6 +89,7 @@ def check_core_family(prop, tier):
                 "distinct = distinct (token text, protocol, key, footer, assertion, layer) tuples" % (cfg, n_cases, prop),
         "tlc_invariants": "Inv_All (RoundTrip, Integrity, KeyBound, FooterBound, AssertBound, ProtoBound, AcceptIff, FooterSeg, Hidden, NoPanic, PredictionSound)",
         "tlc_depth": res["depth"],
+        "simulated_multi_edit_cases": sim_cases,
         "tlc_wall_s": round(res["wall"], 1),
         "concrete_tokens": s["tokens"],
         "instances": s["instances"],
